@@ -63,7 +63,7 @@ func (f *cfsm) Apply(l *raft.Log) interface{} {
 func (f *cfsm) Snapshot() (raft.FSMSnapshot, error) {
 	f.mu.Lock()
 	defer f.mu.Unlock()
-	return &slowSnap{data: encodeState(f.state), d: f.persist}, nil
+	return &slowSnap{data: encodeState(f.state), d: f.persist, noClose: len(f.state)%2 == 0}, nil
 }
 func (f *cfsm) Restore(rc io.ReadCloser) error {
 	b, err := io.ReadAll(rc)
@@ -95,8 +95,9 @@ func (f *cbfsm) StoreConfiguration(index uint64, configuration raft.Configuratio
 
 // slowSnap: Persist takes a while, so that InstallSnapshot / restore can fall into a running snapshot
 type slowSnap struct {
-	data []byte
-	d    time.Duration
+	data    []byte
+	d       time.Duration
+	noClose bool // leave the final Close to raft (both styles exist among FSMs)
 }
 
 func (s *slowSnap) Persist(sink raft.SnapshotSink) error {
@@ -104,6 +105,9 @@ func (s *slowSnap) Persist(sink raft.SnapshotSink) error {
 	if _, err := sink.Write(s.data); err != nil {
 		_ = sink.Cancel()
 		return err
+	}
+	if s.noClose {
+		return nil
 	}
 	return sink.Close()
 }
@@ -335,7 +339,16 @@ func (c *cluster) startNode(n *cnode) {
 	if n.batching {
 		theFSM = &cbfsm{n.fsm}
 	}
-	r, err := raft.NewRaft(c.conf(n.id, n), theFSM, n.st, n.st, n.snaps, n.trans)
+	var r *raft.Raft
+	var err error
+	func() {
+		defer func() {
+			if p := recover(); p != nil {
+				err = fmt.Errorf("panic: %v", p)
+			}
+		}()
+		r, err = raft.NewRaft(c.conf(n.id, n), theFSM, n.st, n.st, n.snaps, n.trans)
+	}()
 	if err != nil {
 		c.h.rec("X %d %d newraft-error", n.id, n.life)
 		n.up = false
@@ -672,6 +685,22 @@ func runClusterCase(rng *rand.Rand, thorough bool, out *bufio.Writer, st *stats,
 					n.snaps.mu.Lock()
 					n.snaps.failClose = 1
 					n.snaps.mu.Unlock()
+					if rng.Intn(2) == 0 {
+						// ... a snapshot is attempted right now, and the server dies soon after: whatever it
+						// compacted must have been covered by a snapshot that really is on disk
+						c.callWith(n, "s", func(r *raft.Raft) error {
+							err := r.Snapshot().Error()
+							if errors.Is(err, raft.ErrNothingNewToSnapshot) {
+								return nil
+							}
+							return err
+						})
+						time.Sleep(time.Duration(150+rng.Intn(100)) * time.Millisecond)
+						c.crash(n)
+						time.Sleep(50 * time.Millisecond)
+						c.startNodeP(n)
+						st.Hist["failed-snapshot-then-crash"]++
+					}
 				}
 				st.Hist["disk-fault"]++
 			}
